@@ -568,8 +568,16 @@ class AtLeastKInARow(_KInARow):
 
         # Request sublists for k+1 to allow us to determine the transition
         sublistss = self._build_variable_sublistss(block, level, self.k + 1)
+        var_lists = block.build_variable_lists(level, self.within_block)
         implications = []
-        for sublists in sublistss:
+        for var_list, sublists in zip(var_lists, sublistss):
+            if not sublists:
+                # No more than k trials: a run of k either fills them all or cannot exist
+                if len(var_list) == self.k:
+                    implications += [Iff(var_list[0], v) for v in var_list[1:]]
+                else:
+                    implications += [Not(v) for v in var_list]
+                continue
             # Starting corner case
             implications.append(If(sublists[0][0], And(sublists[0][1:-1])))
             for sublist in sublists:
@@ -577,6 +585,8 @@ class AtLeastKInARow(_KInARow):
             # Ending corner case
             implications.append(If(Not(sublists[-1][1]), Not(Or(sublists[-1][2:]))))
 
+        if not implications:
+            return
         (cnf, new_fresh) = block.cnf_fn(And(implications), backend_request.fresh)
 
         backend_request.cnfs.append(cnf)
@@ -639,9 +649,15 @@ class ExactlyKInARow(_KInARow):
                                  backend_request: BackendRequest
                                  ) -> None:
         sublistss = self._build_variable_sublistss(block, level, self.k)
+        var_lists = block.build_variable_lists(level, self.within_block)
         implications = []
 
-        for sublists in sublistss:
+        for var_list, sublists in zip(var_lists, sublistss):
+            if not sublists:
+                # Fewer than k trials: no room for a run of k
+                if var_list:
+                    backend_request.cnfs.append(And([-v for v in var_list]))
+                continue
             # Handle the regular cases (1 => 2 ^ ... ^ n ^ ~n+1)
             trim = len(sublists) if self.k > 1 else len(sublists) - 1
             for idx, l in enumerate(sublists[:trim]):
